@@ -274,6 +274,56 @@ def run(ctx):
                   "the final conjunct is recognised for every consonant (placement needs the classes to be right)")
     classes.check_classes(r4, prog, ["is_pure_consonant", "is_vowel"], common.fn_line)
     r4.floor(3, "two classes + disjointness")
+    # ---------------- R5 the mobility test only accepts characters the scan classifies
+    r5 = chk.rule("C13.R5", "every character class the mobility test accepts is classified (and counted) by the scan",
+                  "the reph lands in front of the final conjunct: a character the scan does not know is stepped over uncounted and the reph lands inside the cluster")
+    sets5, _pe5 = classes.class_sets(prog)
+    by_key = {k: (name, cs) for name, (k, cs) in sets5.items()}
+    heads5 = rb.loops()
+    scan = [(h, tl) for h, tl in heads5.items() if any(rb.blocks[x]["term"]["k"] == "assert" and rb.blocks[x]["term"]["kind"] == "Overflow:Add" for x in rb.loop_body(h, tl))]
+    if len(scan) != 1:
+        r5.undecidable("scan", "expected one counting loop in the reph routine, found %d" % len(scan), common.fn_line(prog, reph_fn))
+    else:
+        body5 = rb.loop_body(*scan[0])
+        in_loop, out_loop, in_eq = set(), set(), set()
+        for x in rb.rblocks:
+            t = rb.blocks[x]["term"]
+            if t["k"] != "switch":
+                continue
+            d = strip_refs(rb.expr_operand(t["discr"]))
+            while d.k == "un" and d.a[0] == "Not":
+                d = strip_refs(d.a[1])
+            for y in d.walk():
+                if y.k == "call" and y.a[0] in by_key:
+                    (in_loop if x in body5 else out_loop).add(y.a[0])
+                if y.k == "bin" and y.a[0] in ("Eq", "Ne") and x in body5:
+                    for o in (strip_refs(y.a[1]), strip_refs(y.a[2])):
+                        if is_const(o, "char"):
+                            in_eq.add(const_val(o))
+        classified = set(in_eq)
+        unknown_set = False
+        for k5 in in_loop:
+            if by_key[k5][1] is None:
+                unknown_set = True
+            else:
+                classified |= by_key[k5][1]
+        if not in_loop or not out_loop or unknown_set:
+            r5.undecidable("classes", "class predicates of the scan (%d) / the mobility test (%d) not found or not evaluable" % (len(in_loop), len(out_loop)), common.fn_line(prog, reph_fn))
+        else:
+            for k5 in sorted(out_loop):
+                name5, cs5 = by_key[k5]
+                if cs5 is None:
+                    r5.undecidable("accepts:%s" % name5, "cannot evaluate %s as a set" % name5)
+                    continue
+                extra5 = cs5 - classified
+                if extra5:
+                    r5.violation("accepts:%s" % name5, "the mobility test uses %s, which is true for %s, but the scan classifies none of them (it tests %s%s): with such a "
+                                 "character at the end the reph is declared moveable, the character is stepped over uncounted and the reph lands inside the cluster"
+                                 % (name5, " ".join("U+%04X" % ord(c) for c in sorted(extra5)), ", ".join(sorted(by_key[k][0] for k in in_loop)),
+                                    " and " + " ".join("U+%04X" % ord(c) for c in sorted(in_eq)) if in_eq else ""), common.fn_line(prog, k5))
+                else:
+                    r5.ok("accepts:%s" % name5, "%s ⊆ characters the scan classifies" % name5)
+    r5.floor(2, "two classes used by the mobility test")
     r1.table("obligations", n_ob)
     r1.floor(6, "4 counter increments, len − step, suffix-bytes (sum, subtraction, truncate)")
 
